@@ -92,6 +92,9 @@ func (e *execT) Do(line string) string {
 		return out
 	case "conc":
 		e.acc = newAcceptor()
+		if fail, ok := failedScenario[line]; ok {
+			return fail
+		}
 		if _, ok := concCache[line]; ok {
 			delete(concCache, line)
 			return "ok"
@@ -133,6 +136,10 @@ func traceStep(a *acceptor, f []string) string {
 		ok = a.quiet()
 	case len(f) == 2 && f[1] == "final":
 		ok = a.final()
+	case len(f) == 2 && f[1] == "down":
+		ok = a.down()
+	case len(f) == 4 && f[1] == "seed":
+		ok = len(a.configs) > 0
 	default:
 		return "bad-op"
 	}
@@ -160,8 +167,12 @@ func traceLines(res *concResult) []string {
 		switch ev.K {
 		case "req", "rep":
 			ls = append(ls, "t "+ev.K+" "+ev.H)
+		case "seed":
+			ls = append(ls, "t seed "+ev.H+" "+ev.D)
 		case "quiet":
 			ls = append(ls, "t final")
+		case "down":
+			ls = append(ls, "t down")
 		}
 	}
 	return ls
